@@ -404,11 +404,21 @@ def run_plan_history(ctx):
                     if not np.array_equal(np.asarray(x), xa):
                         ctx.violation('DiscreteFourierTransform', cfg + ';' + stage.split(';')[0], 'input-modified', shape=shape, stage=stage)
                         break
-                Fi = F.inverse
-                Fi.init_fftw_plan()
-                back = np.asarray(Fi(F.range.element(ref.astype(F.range.dtype))))
-                if not np.allclose(back, xa, rtol=tol, atol=tol * max(1.0, float(np.abs(xa).max()))):
-                    ctx.violation('DiscreteFourierTransformInverse', cfg + ';after-init_fftw_plan', 'inverse(forward(x))!=x', shape=shape)
+                for prepared in (False, True):
+                    Fi = F.inverse
+                    if prepared:
+                        Fi.init_fftw_plan()
+                    yin = F.range.element(ref.astype(F.range.dtype))
+                    ykeep = np.asarray(yin).copy()
+                    for call_no in (1, 2):
+                        back = np.asarray(Fi(yin))
+                        stage = ('after-init_fftw_plan' if prepared else 'first-call')
+                        if not np.allclose(back, xa, rtol=tol, atol=tol * max(1.0, float(np.abs(xa).max()))):
+                            ctx.violation('DiscreteFourierTransformInverse', cfg + ';' + stage, 'inverse(forward(x))!=x', shape=shape, call=call_no)
+                            break
+                        if not np.array_equal(np.asarray(yin), ykeep):
+                            ctx.violation('DiscreteFourierTransformInverse', cfg + ';' + stage, 'input-modified', shape=shape, call=call_no)
+                            break
             except Exception as e:
                 ctx.violation('DiscreteFourierTransform', cfg, 'raises:' + type(e).__name__, message=str(e)[:200], shape=shape)
         # --- continuous transform and its inverse with temporaries prepared ahead
